@@ -73,6 +73,11 @@ func (c *checker) diskOp(e *sim.Ev) {
 		for _, sn := range d.snaps {
 			if sn.id == e.X {
 				sn.done, sn.content = true, e.Y
+				if sn.index > s.applied && sn.index > s.installedMax {
+					// ahead of what this server has applied: not a snapshot of its own state but one it
+					// received (complete on disk from here on, even if the server crashes before using it)
+					s.installedMax = sn.index
+				}
 				c.snapsPending = append(c.snapsPending, snapCheck{key: instKey{e.S, e.Ep}, index: sn.index, term: sn.term, cfg: sn.cfg, cfgIdx: sn.cfgIdx, content: sn.content, seq: e.Seq})
 			}
 		}
